@@ -1,5 +1,9 @@
 (* C14 — the streaming base64 codec follows RFC 4648 and round-trips under any
-   chunking.  Statements only; each is closed by a lemma proved elsewhere. *)
+   chunking.  Statements only; each is closed by a lemma proved elsewhere.
+   Counted: the 5 Theorems.  Audited, not counted: the three Examples and Check pins.
+   encode_chunks / decode_all = model of Base64Encoder / Base64Decoder (Encoder/Base64.v);
+   rfc4648 = the specification; sched = what the inner reader returns per call, dests = sizes
+   of the caller's buffers.  Assumed: the reader returns 0 only at end of input. *)
 From Coq Require Import List NArith Arith.
 From SNT Require Import Base.Outcome Gen.TabBase64 Encoder.Base64
   Encoder.Base64Proofs Encoder.Base64DecProofs.
